@@ -143,7 +143,11 @@ def gen_anno1(rng, bad):
         return []
     if r < 0.85:
         return [{"k": b"add_latency", "v": pick(rng, DURS_OK)}]
-    return [{"k": b"add_latency", "v": pick(rng, DURS_OK + (DURS_BAD if rng.random() < bad else []))} for _ in range(rng.randint(2, 3))]
+    a = [{"k": b"add_latency", "v": pick(rng, DURS_OK)} for _ in range(rng.randint(2, 3))]
+    if rng.random() < 0.6 * bad:      # a malformed value / unknown key at any position among well-formed repeats
+        i = rng.randrange(len(a))
+        a[i] = {"k": b"add_latency", "v": pick(rng, DURS_BAD)} if rng.random() < 0.7 else {"k": pick(rng, ANNO_BAD_KEYS), "v": pick(rng, DURS_OK)}
+    return a
 
 
 def gen_policy(rng, pool, friendly):
@@ -237,6 +241,44 @@ def enumerate_small():
                         c["text"] = t
                     out.append(c)
                     n += 1
+    return out
+
+
+def annotation_family():
+    """fixed boundary family: every order of {well-formed zero, well-formed non-zero, malformed duration,
+    unknown key} of length 1..3 as the annotation of (a) a line some node hits first, (b) a line no node
+    hits, (c) a line every node satisfies but only after an earlier line (never the first hit)."""
+    import itertools
+    reps = {"z": [(b"add_latency", b"0s"), (b"add_latency", b"0"), (b"add_latency", b"-0")],
+            "n": [(b"add_latency", b"500ms"), (b"add_latency", b"-1s"), (b"add_latency", b"1h")],
+            "m": [(b"add_latency", b"oops"), (b"add_latency", b""), (b"add_latency", b"5")],
+            "u": [(b"latency", b"5ms"), (b"Add_latency", b"1s"), (b"add_latency ", b"0s")]}
+    pool = [{"name": b"hk-1", "tag": b"sub"}, {"name": b"sg-1", "tag": b"sub"}]
+    hk = {"name": b"name", "not": False, "params": [{"k": b"keyword", "v": b"hk"}]}
+    zz = {"name": b"name", "not": False, "params": [{"k": b"keyword", "v": b"zz"}]}
+    allf = {"name": b"subtag", "not": False, "params": [{"k": b"", "v": b"sub"}]}
+    out = []
+    n = 0
+    rng0 = random.Random(0)
+    for ln in (1, 2, 3):
+        for combo in itertools.product("znmu", repeat=ln):
+            a = []
+            for pos, kind in enumerate(combo):
+                k, v = reps[kind][(n + pos) % 3]
+                a.append({"k": k, "v": v})
+            n += 1
+            for shape in ("hit", "nohit", "shadowed"):
+                if shape == "hit":
+                    lines, annos = [[copy.deepcopy(hk)]], [copy.deepcopy(a)]
+                elif shape == "nohit":
+                    lines, annos = [[copy.deepcopy(zz)], [copy.deepcopy(hk)]], [copy.deepcopy(a), []]
+                else:
+                    lines, annos = [[copy.deepcopy(allf)], [copy.deepcopy(hk)]], [[{"k": b"add_latency", "v": b"1ms"}], copy.deepcopy(a)]
+                c = {"pool": copy.deepcopy(pool), "lines": lines, "annos": annos, "policy": {"type": "string", "s": b"min", "fs": []}}
+                t = render_text(c, rng0)
+                if t is not None:
+                    c["text"] = t
+                out.append(c)
     return out
 
 
@@ -698,6 +740,7 @@ def main(argv):
             small = enumerate_small()
             if args.tier == "quick":
                 small = rng.sample(small, 80)
+            small = annotation_family() + small      # the annotation family runs in full in both tiers
             cases = corpus + small + [gen_case(rng, big=(i % 5 == 0)) for i in range(n_cases)]
             n_enum = len(small)
         all_err = {}
@@ -794,7 +837,7 @@ def main(argv):
                    rule="random pools (0-14 nodes; duplicate, empty, non-UTF-8, quoted, multi-line names; 1-3 subscription tags) x group definitions (0-6 filter lines of 0-3 "
                         "possibly negated name()/subtag()/unknown functions with 0-4 exact/keyword/regex/unknown-key parameters drawn from the pool's own names and substrings, "
                         "regexp2-specific and malformed patterns; annotations absent/valid/repeated/malformed/unknown; annotation count mismatch) x policies (bare word, function, list, "
-                        "non-function; five policy names and near misses; fixed with boundary integers, keys, negation, 0-3 params), half of them also as configuration text through the production parser; plus the exhaustive single-line single-function enumeration over an 8-parameter alphabet (all of it in the thorough tier, a sample in quick); "
+                        "non-function; five policy names and near misses; fixed with boundary integers, keys, negation, 0-3 params), half of them also as configuration text through the production parser; plus the fixed annotation family (every order of {zero, non-zero, malformed, unknown key} of length 1..3 on a line hit first / never hit / shadowed, in both tiers) and the exhaustive single-line single-function enumeration over an 8-parameter alphabet (all of it in the thorough tier, a sample in quick); "
                         "signature = (definition valid, model outcome class, #lines, #members, #lines used as first hit, policy outcome class); "
                         "non-trivial = distinct signatures with >=1 filter line and (>=1 member or an error)",
                    distinct_signatures=distinct,
